@@ -8,6 +8,6 @@ d=$(mktemp -d /tmp/govc-mutant.XXXXXX)
 trap '[ -n "${KEEP:-}" ] && { rm -rf "$d/repo"; echo "kept $d/root"; } || rm -rf "$d"' EXIT
 mkdir -p "$d/repo" "$d/root"
 (cd /repo && git ls-files -z --cached --others --exclude-standard | xargs -0 cp --parents -t "$d/repo") 
-cp /verif/KNOWN_FINDINGS.txt "$d/root/" 2>/dev/null
+cp /verif/KNOWN_FINDINGS.txt /verif/names.json "$d/root/" 2>/dev/null
 if ! (cd "$d/repo" && patch -p1 -s < "$patch"); then echo "PATCH-FAILED"; exit 3; fi
 /verif/bin/govc check -repo "$d/repo" -root "$d/root" -p "$prop" "$@"
